@@ -1,1 +1,2 @@
 pub mod cal;
+pub mod lunar_seq;
